@@ -136,6 +136,8 @@ EpochChange(em, rw, su2, newset) ==
 NonNeg == /\ \A v \in Vals : LE(Z, val[v].stake) /\ LE(Z, val[v].su) /\ LE(Z, val[v].pend) /\ LE(Z, owner[v])
           /\ \A u \in Usrs : LE(Z, xrd[u]) /\ \A v \in Vals : LE(Z, held[u][v])
           /\ LE(Z, rewards)
+\* every member of the stored active set was selected with a non-zero stake (the set records the stake at selection)
+SetStakesPositive == \A i \in DOMAIN aset : LT(Z, aset[i].stake)
 \* every stake unit is somebody's
 UnitsAreHeld == \A v \in Vals : val[v].su = Plus(owner[v], SumTo([u \in Usrs |-> held[u][v]], cfg.nu))
 \* the pending vault holds exactly the outstanding claims (every claim can be paid, nothing else is in there)
